@@ -158,9 +158,12 @@ def parseLoop : List Tok → PState → Except ParseResult PState
   | .unknownLong :: _, _ => .error (.usage "unexpected argument")
   | .outside :: _, _ => .error .unsupported
 
-/-- Which positional is what (main.rs:197-205, 236, 249-262).  `asFound = true`: the first
-    positional is always `INPUT`, also with `--stdin` (then stdin is not read at all).
-    `asFound = false`: with `--stdin` the only positional allowed is the OUTPUT file (dart-sass). -/
+/-- Which positional is what (main.rs: `INPUT`/`OUTPUT` arguments, `OUTPUT.conflicts_with("STDIN")`,
+    and `let (input, output) = if STDIN { (None, INPUT) } else { (INPUT, OUTPUT) }`).
+    `asFound = false`: the code as it stands (fix c1728ad): with `--stdin` the only positional
+    allowed is the OUTPUT file, a second one is a usage error.
+    `asFound = true`: the variant found on the pinned tree: the first positional is always
+    `INPUT`, also with `--stdin` (then stdin is not read at all). -/
 def assignAsFound (f : Flags) : List String → ParseResult
   | [] => if f.stdin then .ok ⟨f, none, none⟩ else .usage "INPUT required"
   | [i] => .ok ⟨f, some i, none⟩
@@ -201,7 +204,7 @@ def renderArgv (f : Flags) (positionals : List String) : List String := (renderT
 
 /-! ### what a run does -/
 
-/-- Where the source comes from (main.rs:249-262): a positional `INPUT` wins over `--stdin`. -/
+/-- Where the source comes from: the input file if the command line names one, else stdin. -/
 inductive InputKind where
   | file | stdin
   deriving DecidableEq, Repr, Inhabited
@@ -253,6 +256,14 @@ def outcome (_f : Flags) (_i : InputKind) (o : OutputKind) (lib : LibResult) : O
     | .ok css w => { exitZero := true, stdout := "", stderr := [.text w], file := some css }
     -- the file was created/truncated before compiling and nothing is written to it
     | .err r w => { exitZero := false, stdout := "", stderr := [.text w, .text (r ++ "\n")], file := some "" }
+
+/-- `--stdin` whose bytes are not UTF-8 (main.rs: `stdin().read_to_string(&mut buffer)?` inside the
+    argument of `write_all`): `main` returns the I/O error before the library is called — but AFTER
+    the output file was opened, so a named output file is left created/empty. -/
+def outcomeStdinUnreadable (o : OutputKind) : Outcome :=
+  match o with
+  | .file => { exitZero := false, stdout := "", stderr := [.osError], file := some "" }
+  | _ => { exitZero := false, stdout := "", stderr := [.osError], file := none }
 
 /-- Text segments of stderr joined (an `osError` segment contributes nothing here). -/
 def stderrText (o : Outcome) : String :=
@@ -337,18 +348,19 @@ def segStr : Seg → String
 def handleOutcome (ok kind body warn fc sf : String) : String :=
   match outputKindOfStr ok, hexDecode body, hexDecode warn, parseBool? fc, parseBool? sf with
   | some ok, some body, some warn, some fc, some sf =>
-    if kind != "ok" && kind != "err" then "bad-op" else
+    if kind != "ok" && kind != "err" && kind != "ioerr" then "bad-op" else
     let lib := if kind == "ok" then LibResult.ok body warn else LibResult.err body warn
-    let r := outcomeIO fc {} .file ok lib sf
+    let r := if kind == "ioerr" then outcomeStdinUnreadable ok else outcomeIO fc {} .file ok lib sf
     s!"ok exit0={boolStr r.exitZero} stdout={hexEncode r.stdout} stderr={",".intercalate (r.stderr.map segStr)} file={optStr r.file}"
   | _, _, _, _, _ => "bad-op"
 
 def handleAgrees (ok kind body warn code so se fl fc sf : String) : String :=
   match outputKindOfStr ok, hexDecode body, hexDecode warn, code.toNat?, hexDecode so, hexDecode se, optOfStr fl, parseBool? fc, parseBool? sf with
   | some ok, some body, some warn, some code, some so, some se, some fl, some fc, some sf =>
-    if kind != "ok" && kind != "err" then "bad-op" else
+    if kind != "ok" && kind != "err" && kind != "ioerr" then "bad-op" else
     let lib := if kind == "ok" then LibResult.ok body warn else LibResult.err body warn
-    "ok " ++ boolStr (agrees (outcomeIO fc {} .file ok lib sf) ⟨code, so, se, fl⟩)
+    let exp := if kind == "ioerr" then outcomeStdinUnreadable ok else outcomeIO fc {} .file ok lib sf
+    "ok " ++ boolStr (agrees exp ⟨code, so, se, fl⟩)
   | _, _, _, _, _, _, _, _, _ => "bad-op"
 
 def handle : List String → String
@@ -357,7 +369,7 @@ def handle : List String → String
     match argvOfTok argv with
     | none => "bad-op"
     | some argv =>
-      match parseArgv true argv with
+      match parseArgv false argv with
       | .unsupported => "unsupported"
       | .usage why => "usage " ++ hexEncode why
       | .ok p =>
